@@ -957,58 +957,58 @@ var chartPairsQuick = map[string]string{
 // key: "file#slot" (slot deviations) or "file:" (whole-file deviations);
 // value: variant names, "*" = all.
 var chartPairs = map[string]string{
-	"Chart.yaml#apiVersion":        "missing empty v1 v3",
-	"Chart.yaml#name":              "ctrl subname template",
-	"Chart.yaml#version":           "prerelease",
-	"Chart.yaml#type":              "missing library Library",
-	"Chart.yaml#kubeVersion":       "unsat",
-	"Chart.yaml#keywords":          "null",
-	"Chart.yaml#maintainers":       "null item-fields-null",
-	"Chart.yaml#annotations":       "null",
-	"Chart.yaml#dependencies":      "toplevel-null",
-	"Chart.yaml#tail":              "dep-second-missing-chart dep-second-same-name unknown-field dup-dependencies",
-	"Chart.yaml#dep.name":          "empty",
-	"Chart.yaml#dep.version":       "missing str empty badrange star unsat caret",
-	"Chart.yaml#dep.repository":    "missing",
-	"Chart.yaml#dep.condition":     "*",
-	"Chart.yaml#dep.tags":          "null listnull emptylist nonstring missing-tag missing",
-	"Chart.yaml#dep.alias":         "alias alias-same alias-parent alias-global",
-	"Chart.yaml#dep.enabled":       "enabled-false",
-	"Chart.yaml#dep.import-values": "*",
-	"values.yaml#sub":              "*",
-	"values.yaml#tags":             "*",
-	"values.yaml#global":           "*",
-	"values.yaml#x":                "null map missing",
-	"values.yaml#tplstr":           "unclosed self nil-deref null map include-loop",
-	"values.yaml#imported":         "*",
-	"values.yaml#tail":             "*",
-	"values.yaml:":                 "empty null list emptymap multi-doc nonstring-keys merge-key",
-	"values.schema.json:":          "empty null false emptyobj ref-self ref-recursive ref-missing bad-regex absent deep",
-	"values.schema.json#x":         "type-null null false ref-self not-self type-object",
-	"values.schema.json#sub":       "*",
-	"values.schema.json#required":  "null missingprop additional-false",
-	"templates/cm.yaml#x":          "unclosed nil-deref fail required toyaml-root include-undefined include-loop template-loop tpl-loop tpl-nil files-lines-missing files-glob-bad lookup novalue index-nil subcharts-walk",
-	"templates/cm.yaml#t":          "*",
-	"templates/cm.yaml#l":          "lines-dir",
-	"templates/cm.yaml#head":       "kind-null kind-list apiversion-missing deprecated-api leading-doc-sep toplevel-list empty",
-	"templates/cm.yaml#metadata":   "null list missing name-null",
-	"templates/cm.yaml#annotations": "null list hook-null hook-unknown hook-commas weight-bad delete-policy-bad",
-	"templates/cm.yaml#data":       "doc-sep-inside",
-	"templates/cm.yaml#extra":      "second-doc-null second-doc-empty second-doc-nometadata second-doc-hook sep-no-newline",
-	"templates/cm.yaml:":           "empty only-define redefine-helper absent",
-	"templates/_helpers.tpl:":      "*",
-	"files/data.txt:":              "empty only-newline absent",
-	"charts/sub/Chart.yaml#name":   "*",
-	"charts/sub/Chart.yaml#version": "mismatch missing",
-	"charts/sub/Chart.yaml#type":   "*",
-	"charts/sub/Chart.yaml#tail":   "*",
-	"charts/sub/Chart.yaml:":       "null absent",
+	"Chart.yaml#apiVersion":          "missing empty v1 v3",
+	"Chart.yaml#name":                "ctrl subname template",
+	"Chart.yaml#version":             "prerelease",
+	"Chart.yaml#type":                "missing library Library",
+	"Chart.yaml#kubeVersion":         "unsat",
+	"Chart.yaml#keywords":            "null",
+	"Chart.yaml#maintainers":         "null item-fields-null",
+	"Chart.yaml#annotations":         "null",
+	"Chart.yaml#dependencies":        "toplevel-null",
+	"Chart.yaml#tail":                "dep-second-missing-chart dep-second-same-name unknown-field dup-dependencies",
+	"Chart.yaml#dep.name":            "empty",
+	"Chart.yaml#dep.version":         "missing str empty badrange star unsat caret",
+	"Chart.yaml#dep.repository":      "missing",
+	"Chart.yaml#dep.condition":       "*",
+	"Chart.yaml#dep.tags":            "null listnull emptylist nonstring missing-tag missing",
+	"Chart.yaml#dep.alias":           "alias alias-same alias-parent alias-global",
+	"Chart.yaml#dep.enabled":         "enabled-false",
+	"Chart.yaml#dep.import-values":   "*",
+	"values.yaml#sub":                "*",
+	"values.yaml#tags":               "*",
+	"values.yaml#global":             "*",
+	"values.yaml#x":                  "null map missing",
+	"values.yaml#tplstr":             "unclosed self nil-deref null map include-loop",
+	"values.yaml#imported":           "*",
+	"values.yaml#tail":               "*",
+	"values.yaml:":                   "empty null list emptymap multi-doc nonstring-keys merge-key",
+	"values.schema.json:":            "empty null false emptyobj ref-self ref-recursive ref-missing bad-regex absent deep",
+	"values.schema.json#x":           "type-null null false ref-self not-self type-object",
+	"values.schema.json#sub":         "*",
+	"values.schema.json#required":    "null missingprop additional-false",
+	"templates/cm.yaml#x":            "unclosed nil-deref fail required toyaml-root include-undefined include-loop template-loop tpl-loop tpl-nil files-lines-missing files-glob-bad lookup novalue index-nil subcharts-walk",
+	"templates/cm.yaml#t":            "*",
+	"templates/cm.yaml#l":            "lines-dir",
+	"templates/cm.yaml#head":         "kind-null kind-list apiversion-missing deprecated-api leading-doc-sep toplevel-list empty",
+	"templates/cm.yaml#metadata":     "null list missing name-null",
+	"templates/cm.yaml#annotations":  "null list hook-null hook-unknown hook-commas weight-bad delete-policy-bad",
+	"templates/cm.yaml#data":         "doc-sep-inside",
+	"templates/cm.yaml#extra":        "second-doc-null second-doc-empty second-doc-nometadata second-doc-hook sep-no-newline",
+	"templates/cm.yaml:":             "empty only-define redefine-helper absent",
+	"templates/_helpers.tpl:":        "*",
+	"files/data.txt:":                "empty only-newline absent",
+	"charts/sub/Chart.yaml#name":     "*",
+	"charts/sub/Chart.yaml#version":  "mismatch missing",
+	"charts/sub/Chart.yaml#type":     "*",
+	"charts/sub/Chart.yaml#tail":     "*",
+	"charts/sub/Chart.yaml:":         "null absent",
 	"charts/sub/values.yaml#enabled": "*",
-	"charts/sub/values.yaml#data":  "*",
+	"charts/sub/values.yaml#data":    "*",
 	"charts/sub/values.yaml#exports": "*",
-	"charts/sub/values.yaml#global": "*",
-	"charts/sub/values.yaml:":      "empty null list multi-doc absent",
-	"@uservalues:":                 "*",
+	"charts/sub/values.yaml#global":  "*",
+	"charts/sub/values.yaml:":        "empty null list multi-doc absent",
+	"@uservalues:":                   "*",
 }
 
 // chartTriples selects the deviations combined three at a time in the
@@ -1288,9 +1288,9 @@ func newChartEntry() *docEntry {
 		name:      "chart",
 		widePairs: true,
 		files:     chartFiles(),
-		devs:  chartDevs(),
-		trunc: []string{"Chart.yaml", "values.yaml", "values.schema.json", "templates/cm.yaml", "charts/sub/values.yaml"},
-		exec:  chartExec,
+		devs:      chartDevs(),
+		trunc:     []string{"Chart.yaml", "values.yaml", "values.schema.json", "templates/cm.yaml", "charts/sub/values.yaml"},
+		exec:      chartExec,
 		floors: []string{"chart:baseline-ok", "chart:all-ok", "chart:error:LoadFiles", "chart:error:CheckDependencies", "chart:error:ProcessDependencies",
 			"chart:error:ToRenderValues", "chart:error:Render", "chart:error:SortManifests", "chart:error:Lint", "chart:error:LoadArchive", "chart:error:LoadDir", "chart:error:ReadValues"},
 	}
